@@ -86,10 +86,16 @@ def _dontcare(ins):
     return out
 
 
+BOUNDARY_BYTES = (0x00, 0x01, 0x02, 0x7F, 0x80, 0xEB, 0xEC, 0xEE, 0xEF, 0xFB, 0xFD, 0xFE, 0xFF)
+
+
 def build_case(r, pfx, op, b2, flavour="dist", addr=None, small_payload=True, icount=None, canonical=None):
     dec = _dec()
     if small_payload:
         tail = bytes(r.randrange(0x08, 0x60) for _ in range(5))
+    elif flavour == "boundary":
+        # operand bytes at the edges too (internal offsets next to FF/00/EC, displacements 00/7F/80/FF, page edges)
+        tail = bytes(r.choice(BOUNDARY_BYTES) if r.random() < 0.6 else r.randrange(256) for _ in range(5))
     else:
         tail = bytes(r.randrange(256) for _ in range(5))
     buf = head_bytes(pfx, op, b2, tail)
@@ -155,7 +161,8 @@ def build_case(r, pfx, op, b2, flavour="dist", addr=None, small_payload=True, ic
                             mem.setdefault(IMEM + a, (r.randrange(10) << 4) | r.randrange(10))
             regs["BA"] = (regs["BA"] & 0xFF00) | (r.randrange(10) << 4) | r.randrange(10)
     elif flavour == "boundary":
-        regs = {"BA": r.choice((0, 0xFFFF, 0x00FF, 0xFF00, 0x8000)), "I": icount or 1,
+        regs = {"BA": r.choice((0, 0xFFFF, 0x00FF, 0xFF00, 0x8000)),
+                "I": icount or (r.choice((1, 2, 3)) if mn in COUNTED else 1),
                 "X": r.choice((0xFFFFF, 0xFFFFE, 0, 1, 0x0FFFF, 0x10000)),
                 "Y": r.choice((0xFFFFF, 0xFFFFD, 0, 2, 0x7FFFF)),
                 "U": r.choice((0xFFFFF, 3, 0, 0x10001)), "S": r.choice((0xFFFFF, 0xFFFF0, 4, 0, 8)),
